@@ -2,78 +2,81 @@
    scheduler Monitor.  Only statements, closed by the lemma that proves them, and their assumptions.
    X_run ... acts = Some (s, tr): acts is an admissible execution (any interleaving of put() calls and kernel steps, clock
    moves only when nothing is due) from the initial state, s the state reached, tr the timed trace.
-   held_flow s f: packets of f in transmission ++ in the granted get ++ in the store, oldest first. *)
+   SP: cm is flow2class (ANY function: several flows may share a class), tbl the priority table keyed by class, fl the flows
+   the Monitor reports; put(p) is admissible when the class of p's flow is in the table.  RR, WRR: identity class map.
+   held_class c s k: packets of class k in transmission ++ in the granted get ++ in the store of k, oldest first;
+   held_flow c s f = the packets of flow f among held_class c s (cls f). *)
 From Coq Require Import ZArith QArith List.
 From ONL Require Import Elem.Packet Elem.StoreQ Elem.SchedBase Elem.SchedBaseProofs Elem.SP Elem.SPProofs Elem.RR Elem.RRProofs Elem.WRR Elem.WRRProofs.
 Import ListNotations.
 
 (* ================= SP ================= *)
-(* never idle with a backlog: whenever the clock may move (SAdvance admissible) a transmission is in progress and not yet due, or no packet is held at all *)
-Theorem C12_sp_work_conserving : forall (r : Q) (tbl : list (Z * Z)) acts s tr t x,
-  0 < r -> (forall f p, In (f, p) tbl -> (0 < p)%Z) ->
-  sp_run r tbl acts = Some (s, tr) -> sp_act r tbl s (SAdvance t) = Some x ->
-  (exists p dl, mchild s = CTx p dl /\ mcur s = Some p /\ mnow s < dl) \/ (forall f, held_flow s f = []).
+(* never idle with a backlog: whenever the clock may move (SAdvance admissible) a transmission is in progress and not yet due, or no packet is held at all (no class queue, no granted get, no child holds one) *)
+Theorem C12_sp_work_conserving : forall (r : Q) (cm : Z -> Z) (fl : list Z) (tbl : list (Z * Z)) acts s tr t x,
+  0 < r -> (forall k p, In (k, p) tbl -> (0 < p)%Z) ->
+  sp_run r cm fl tbl acts = Some (s, tr) -> sp_act r cm fl tbl s (SAdvance t) = Some x ->
+  (exists p dl, mchild s = CTx p dl /\ mcur s = Some p /\ mnow s < dl) \/ (forall k, held_class (sp_cfg true r cm fl tbl) s k = []).
 Proof. exact sp_work_conserving. Qed.
 Print Assumptions C12_sp_work_conserving.
 
 (* tx_wf: along the timed trace a transmission starts only when none is in progress; it ends exactly 8*size/rate later by forwarding the very packet that was started; no other action ends it and the clock never passes its end *)
-Theorem C12_sp_one_at_a_time_tx_time : forall (r : Q) (tbl : list (Z * Z)) acts s tr,
+Theorem C12_sp_one_at_a_time_tx_time : forall (r : Q) (cm : Z -> Z) (fl : list Z) (tbl : list (Z * Z)) acts s tr,
   0 < r ->
-  sp_run r tbl acts = Some (s, tr) -> tx_wf (sp_cfg true r tbl) None tr.
+  sp_run r cm fl tbl acts = Some (s, tr) -> tx_wf (sp_cfg true r cm fl tbl) None tr.
 Proof. exact sp_one_at_a_time_tx_time. Qed.
 Print Assumptions C12_sp_one_at_a_time_tx_time.
 
 (* if a packet is held when a transmission ends, a transmission starts (OStart) at that same instant before the clock can move *)
-Theorem C12_sp_back_to_back : forall (r : Q) (tbl : list (Z * Z)) acts1 s1 tr1 s2 o acts2 s3 tr2 t x,
-  0 < r -> (forall f p, In (f, p) tbl -> (0 < p)%Z) ->
-  sp_run r tbl acts1 = Some (s1, tr1) -> sp_act r tbl s1 SChildTimer = Some (s2, o) -> (exists f, held_flow s2 f <> []) ->
-  mq_run (sp_cfg true r tbl) s2 acts2 = Some (s3, tr2) -> (forall t', ~ In (SAdvance t') acts2) -> sp_act r tbl s3 (SAdvance t) = Some x ->
+Theorem C12_sp_back_to_back : forall (r : Q) (cm : Z -> Z) (fl : list Z) (tbl : list (Z * Z)) acts1 s1 tr1 s2 o acts2 s3 tr2 t x,
+  0 < r -> (forall k p, In (k, p) tbl -> (0 < p)%Z) ->
+  sp_run r cm fl tbl acts1 = Some (s1, tr1) -> sp_act r cm fl tbl s1 SChildTimer = Some (s2, o) -> (exists k, held_class (sp_cfg true r cm fl tbl) s2 k <> []) ->
+  mq_run (sp_cfg true r cm fl tbl) s2 acts2 = Some (s3, tr2) -> (forall t', ~ In (SAdvance t') acts2) -> sp_act r cm fl tbl s3 (SAdvance t) = Some x ->
   exists e p, In e tr2 /\ In (OStart p) (snd e) /\ fst (fst e) = mnow s2.
 Proof. exact sp_back_to_back. Qed.
 Print Assumptions C12_sp_back_to_back.
 
-(* packets of one flow are forwarded in the order they were put in (the forwarded ones are a prefix of the arrivals of that flow) *)
-Theorem C12_sp_flow_fifo : forall (r : Q) (tbl : list (Z * Z)) acts s tr f,
+(* packets of one FLOW are forwarded in the order they were put in (the forwarded ones are a prefix of the arrivals of that flow), also when several flows share a class *)
+Theorem C12_sp_flow_fifo : forall (r : Q) (cm : Z -> Z) (fl : list Z) (tbl : list (Z * Z)) acts s tr f,
   0 < r ->
-  sp_run r tbl acts = Some (s, tr) ->
+  sp_run r cm fl tbl acts = Some (s, tr) ->
   exists rest, filter (is_flow f) (tr_puts tr) = filter (is_flow f) (tr_fwds tr) ++ rest.
 Proof. exact sp_flow_fifo. Qed.
 Print Assumptions C12_sp_flow_fifo.
 
-(* every packet put in is forwarded or held, and the multiplicities add up: nothing is lost, duplicated or invented *)
-Theorem C12_sp_exactly_once : forall (r : Q) (tbl : list (Z * Z)) acts s tr p,
+(* every packet put in is forwarded or held in the queue of its class, and the multiplicities add up: nothing is lost, duplicated or invented *)
+Theorem C12_sp_exactly_once : forall (r : Q) (cm : Z -> Z) (fl : list Z) (tbl : list (Z * Z)) acts s tr p,
   0 < r ->
-  sp_run r tbl acts = Some (s, tr) ->
+  sp_run r cm fl tbl acts = Some (s, tr) ->
   count_occ pkt_eq_dec (tr_puts tr) p
-  = (count_occ pkt_eq_dec (tr_fwds tr) p + count_occ pkt_eq_dec (held_flow s (flow p)) p)%nat.
+  = (count_occ pkt_eq_dec (tr_fwds tr) p + count_occ pkt_eq_dec (held_class (sp_cfg true r cm fl tbl) s (cm (flow p))) p)%nat.
 Proof. exact sp_exactly_once. Qed.
 Print Assumptions C12_sp_exactly_once.
 
-(* queue_count[f] / queue_byte_size[f] = number / bytes of the packets of f in the store, in a granted get or in transmission; total_packets is their sum; current_packet is the packet in transmission; packets_received counts the puts *)
-Theorem C12_sp_counters : forall (r : Q) (tbl : list (Z * Z)) acts s tr,
+(* queue_count[f] / queue_byte_size[f] = number / bytes of the packets of FLOW f in the store of its class, in a granted get or in transmission; total_packets is the number of packets held; current_packet is the packet in transmission; packets_received counts the puts *)
+Theorem C12_sp_counters : forall (r : Q) (cm : Z -> Z) (fl : list Z) (tbl : list (Z * Z)) acts s tr,
   0 < r ->
-  sp_run r tbl acts = Some (s, tr) ->
-  (forall f, mqc s f = Z.of_nat (length (held_flow s f)) /\ mqb s f = sumsz (held_flow s f))
-  /\ mtotal s = zsum (fun f => Z.of_nat (length (held_flow s f))) (dflows (sp_cfg true r tbl))
+  sp_run r cm fl tbl acts = Some (s, tr) ->
+  (forall f, mqc s f = Z.of_nat (length (held_flow (sp_cfg true r cm fl tbl) s f)) /\ mqb s f = sumsz (held_flow (sp_cfg true r cm fl tbl) s f))
+  /\ mtotal s = zsum (fun k => Z.of_nat (length (held_class (sp_cfg true r cm fl tbl) s k))) (dclasses (sp_cfg true r cm fl tbl))
   /\ mcur s = match mchild s with CTx p _ => Some p | _ => None end
   /\ mrecv s = Z.of_nat (length (tr_puts tr)).
 Proof. exact sp_counters. Qed.
 Print Assumptions C12_sp_counters.
 
-(* run() never enters a pass that finds nothing while packets are counted (the state in which the real code would loop without yielding) *)
-Theorem C12_sp_never_spins : forall (r : Q) (tbl : list (Z * Z)) acts s tr,
-  0 < r -> (forall f p, In (f, p) tbl -> (0 < p)%Z) ->
-  sp_run r tbl acts = Some (s, tr) -> mpc s <> PSpin.
+(* run() never enters a pass that finds nothing while packets are counted (the state in which the real code would loop without yielding -- what SP did before a131332 when flow id != class id) *)
+Theorem C12_sp_never_spins : forall (r : Q) (cm : Z -> Z) (fl : list Z) (tbl : list (Z * Z)) acts s tr,
+  0 < r -> (forall k p, In (k, p) tbl -> (0 < p)%Z) ->
+  sp_run r cm fl tbl acts = Some (s, tr) -> mpc s <> PSpin.
 Proof. exact sp_never_spins. Qed.
 Print Assumptions C12_sp_never_spins.
 
 (* a Monitor sample is, per flow, the number and bytes of the packets waiting or in transmission (service_included) resp. waiting only *)
-Theorem C12_sp_monitor_samples : forall (r : Q) (tbl : list (Z * Z)) acts s tr incl,
+Theorem C12_sp_monitor_samples : forall (r : Q) (cm : Z -> Z) (fl : list Z) (tbl : list (Z * Z)) acts s tr incl,
   0 < r ->
-  sp_run r tbl acts = Some (s, tr) ->
-  sp_act r tbl s (SSample incl) =
-    Some (s, [OSample (map (fun f => let l := if incl then held_flow s f else waiting_flow s f in
-                                     (f, Z.of_nat (length l), sumsz l)) (dflows (sp_cfg true r tbl)))]).
+  sp_run r cm fl tbl acts = Some (s, tr) ->
+  sp_act r cm fl tbl s (SSample incl) =
+    Some (s, [OSample (map (fun f => let l := if incl then held_flow (sp_cfg true r cm fl tbl) s f else waiting_flow (sp_cfg true r cm fl tbl) s f in
+                                     (f, Z.of_nat (length l), sumsz l)) (sflows (sp_cfg true r cm fl tbl)))]).
 Proof. exact sp_monitor_samples. Qed.
 Print Assumptions C12_sp_monitor_samples.
 
@@ -81,7 +84,7 @@ Print Assumptions C12_sp_monitor_samples.
 Theorem C12_rr_work_conserving : forall (r : Q) (fl : list Z) acts s tr t x,
   0 < r ->
   rr_run r fl acts = Some (s, tr) -> rr_act r fl s (SAdvance t) = Some x ->
-  (exists p dl, mchild s = CTx p dl /\ mcur s = Some p /\ mnow s < dl) \/ (forall f, held_flow s f = []).
+  (exists p dl, mchild s = CTx p dl /\ mcur s = Some p /\ mnow s < dl) \/ (forall k, held_class (rr_cfg r fl) s k = []).
 Proof. exact rr_work_conserving. Qed.
 Print Assumptions C12_rr_work_conserving.
 
@@ -93,7 +96,7 @@ Print Assumptions C12_rr_one_at_a_time_tx_time.
 
 Theorem C12_rr_back_to_back : forall (r : Q) (fl : list Z) acts1 s1 tr1 s2 o acts2 s3 tr2 t x,
   0 < r ->
-  rr_run r fl acts1 = Some (s1, tr1) -> rr_act r fl s1 SChildTimer = Some (s2, o) -> (exists f, held_flow s2 f <> []) ->
+  rr_run r fl acts1 = Some (s1, tr1) -> rr_act r fl s1 SChildTimer = Some (s2, o) -> (exists k, held_class (rr_cfg r fl) s2 k <> []) ->
   mq_run (rr_cfg r fl) s2 acts2 = Some (s3, tr2) -> (forall t', ~ In (SAdvance t') acts2) -> rr_act r fl s3 (SAdvance t) = Some x ->
   exists e p, In e tr2 /\ In (OStart p) (snd e) /\ fst (fst e) = mnow s2.
 Proof. exact rr_back_to_back. Qed.
@@ -110,15 +113,15 @@ Theorem C12_rr_exactly_once : forall (r : Q) (fl : list Z) acts s tr p,
   0 < r ->
   rr_run r fl acts = Some (s, tr) ->
   count_occ pkt_eq_dec (tr_puts tr) p
-  = (count_occ pkt_eq_dec (tr_fwds tr) p + count_occ pkt_eq_dec (held_flow s (flow p)) p)%nat.
+  = (count_occ pkt_eq_dec (tr_fwds tr) p + count_occ pkt_eq_dec (held_class (rr_cfg r fl) s ((flow p))) p)%nat.
 Proof. exact rr_exactly_once. Qed.
 Print Assumptions C12_rr_exactly_once.
 
 Theorem C12_rr_counters : forall (r : Q) (fl : list Z) acts s tr,
   0 < r ->
   rr_run r fl acts = Some (s, tr) ->
-  (forall f, mqc s f = Z.of_nat (length (held_flow s f)) /\ mqb s f = sumsz (held_flow s f))
-  /\ mtotal s = zsum (fun f => Z.of_nat (length (held_flow s f))) (dflows (rr_cfg r fl))
+  (forall f, mqc s f = Z.of_nat (length (held_flow (rr_cfg r fl) s f)) /\ mqb s f = sumsz (held_flow (rr_cfg r fl) s f))
+  /\ mtotal s = zsum (fun k => Z.of_nat (length (held_class (rr_cfg r fl) s k))) (dclasses (rr_cfg r fl))
   /\ mcur s = match mchild s with CTx p _ => Some p | _ => None end
   /\ mrecv s = Z.of_nat (length (tr_puts tr)).
 Proof. exact rr_counters. Qed.
@@ -134,8 +137,8 @@ Theorem C12_rr_monitor_samples : forall (r : Q) (fl : list Z) acts s tr incl,
   0 < r ->
   rr_run r fl acts = Some (s, tr) ->
   rr_act r fl s (SSample incl) =
-    Some (s, [OSample (map (fun f => let l := if incl then held_flow s f else waiting_flow s f in
-                                     (f, Z.of_nat (length l), sumsz l)) (dflows (rr_cfg r fl)))]).
+    Some (s, [OSample (map (fun f => let l := if incl then held_flow (rr_cfg r fl) s f else waiting_flow (rr_cfg r fl) s f in
+                                     (f, Z.of_nat (length l), sumsz l)) (sflows (rr_cfg r fl)))]).
 Proof. exact rr_monitor_samples. Qed.
 Print Assumptions C12_rr_monitor_samples.
 
@@ -143,7 +146,7 @@ Print Assumptions C12_rr_monitor_samples.
 Theorem C12_wrr_work_conserving : forall (r : Q) (ws : list (Z * Z)) acts s tr t x,
   0 < r -> (forall f w, In (f, w) ws -> (0 < w)%Z) ->
   wrr_run r ws acts = Some (s, tr) -> wrr_act r ws s (SAdvance t) = Some x ->
-  (exists p dl, mchild s = CTx p dl /\ mcur s = Some p /\ mnow s < dl) \/ (forall f, held_flow s f = []).
+  (exists p dl, mchild s = CTx p dl /\ mcur s = Some p /\ mnow s < dl) \/ (forall k, held_class (wrr_cfg r ws) s k = []).
 Proof. exact wrr_work_conserving. Qed.
 Print Assumptions C12_wrr_work_conserving.
 
@@ -155,7 +158,7 @@ Print Assumptions C12_wrr_one_at_a_time_tx_time.
 
 Theorem C12_wrr_back_to_back : forall (r : Q) (ws : list (Z * Z)) acts1 s1 tr1 s2 o acts2 s3 tr2 t x,
   0 < r -> (forall f w, In (f, w) ws -> (0 < w)%Z) ->
-  wrr_run r ws acts1 = Some (s1, tr1) -> wrr_act r ws s1 SChildTimer = Some (s2, o) -> (exists f, held_flow s2 f <> []) ->
+  wrr_run r ws acts1 = Some (s1, tr1) -> wrr_act r ws s1 SChildTimer = Some (s2, o) -> (exists k, held_class (wrr_cfg r ws) s2 k <> []) ->
   mq_run (wrr_cfg r ws) s2 acts2 = Some (s3, tr2) -> (forall t', ~ In (SAdvance t') acts2) -> wrr_act r ws s3 (SAdvance t) = Some x ->
   exists e p, In e tr2 /\ In (OStart p) (snd e) /\ fst (fst e) = mnow s2.
 Proof. exact wrr_back_to_back. Qed.
@@ -172,15 +175,15 @@ Theorem C12_wrr_exactly_once : forall (r : Q) (ws : list (Z * Z)) acts s tr p,
   0 < r ->
   wrr_run r ws acts = Some (s, tr) ->
   count_occ pkt_eq_dec (tr_puts tr) p
-  = (count_occ pkt_eq_dec (tr_fwds tr) p + count_occ pkt_eq_dec (held_flow s (flow p)) p)%nat.
+  = (count_occ pkt_eq_dec (tr_fwds tr) p + count_occ pkt_eq_dec (held_class (wrr_cfg r ws) s ((flow p))) p)%nat.
 Proof. exact wrr_exactly_once. Qed.
 Print Assumptions C12_wrr_exactly_once.
 
 Theorem C12_wrr_counters : forall (r : Q) (ws : list (Z * Z)) acts s tr,
   0 < r ->
   wrr_run r ws acts = Some (s, tr) ->
-  (forall f, mqc s f = Z.of_nat (length (held_flow s f)) /\ mqb s f = sumsz (held_flow s f))
-  /\ mtotal s = zsum (fun f => Z.of_nat (length (held_flow s f))) (dflows (wrr_cfg r ws))
+  (forall f, mqc s f = Z.of_nat (length (held_flow (wrr_cfg r ws) s f)) /\ mqb s f = sumsz (held_flow (wrr_cfg r ws) s f))
+  /\ mtotal s = zsum (fun k => Z.of_nat (length (held_class (wrr_cfg r ws) s k))) (dclasses (wrr_cfg r ws))
   /\ mcur s = match mchild s with CTx p _ => Some p | _ => None end
   /\ mrecv s = Z.of_nat (length (tr_puts tr)).
 Proof. exact wrr_counters. Qed.
@@ -196,7 +199,7 @@ Theorem C12_wrr_monitor_samples : forall (r : Q) (ws : list (Z * Z)) acts s tr i
   0 < r ->
   wrr_run r ws acts = Some (s, tr) ->
   wrr_act r ws s (SSample incl) =
-    Some (s, [OSample (map (fun f => let l := if incl then held_flow s f else waiting_flow s f in
-                                     (f, Z.of_nat (length l), sumsz l)) (dflows (wrr_cfg r ws)))]).
+    Some (s, [OSample (map (fun f => let l := if incl then held_flow (wrr_cfg r ws) s f else waiting_flow (wrr_cfg r ws) s f in
+                                     (f, Z.of_nat (length l), sumsz l)) (sflows (wrr_cfg r ws)))]).
 Proof. exact wrr_monitor_samples. Qed.
 Print Assumptions C12_wrr_monitor_samples.
